@@ -91,6 +91,31 @@ func (e *c04e2) boxPairs(withEmpty bool) []boxPair {
 	return out
 }
 
+// invertedOperands: a valid receiver and an operand that is empty because Max<Min on at
+// least one axis with finite coordinates (every weak ordering of the four values per axis).
+func (e *c04e2) invertedOperands() []boxPair {
+	var out []boxPair
+	var validA, inv, any [][]int64
+	for _, o := range e.ords {
+		if o[0] <= o[1] {
+			any = append(any, o)
+			if o[2] <= o[3] {
+				validA = append(validA, o)
+			} else {
+				inv = append(inv, o)
+			}
+		}
+	}
+	_ = validA
+	for _, ox := range inv {
+		for _, oy := range any {
+			out = append(out, boxPair{a: oBox{ox[0], oy[0], ox[1], oy[1]}, b: oBox{ox[2], oy[2], ox[3], oy[3]}, bEmpty: true})
+			out = append(out, boxPair{a: oBox{oy[0], ox[0], oy[1], ox[1]}, b: oBox{oy[2], ox[2], oy[3], ox[3]}, bEmpty: true})
+		}
+	}
+	return out
+}
+
 func (e *c04e2) mk(b oBox) *oStruct { return e.it.bounds(e.bt, e.pt, b.minx, b.miny, b.maxx, b.maxy) }
 
 func join(a, b oBox, aEmpty, bEmpty bool) oBox {
@@ -290,7 +315,7 @@ func (e *c04e2) checkBoxJoin(m *types.Func, rule string) bool {
 		c.Bad(rule, name, pos, "Extend(nil) changed the receiver to %s", b)
 		return false
 	}
-	for _, bp := range e.boxPairs(true) {
+	for _, bp := range append(e.boxPairs(true), e.invertedOperands()...) {
 		n++
 		recv := e.mk(bp.a)
 		arg := e.mk(bp.b)
@@ -304,7 +329,9 @@ func (e *c04e2) checkBoxJoin(m *types.Func, rule string) bool {
 		want := join(bp.a, bp.b, bp.aEmpty, bp.bEmpty)
 		if !ok || got != want {
 			extra := ""
-			if bp.bEmpty {
+			if bp.bEmpty && bp.b != emptyBox {
+				extra = " (the operand has Max<Min on an axis, so it is empty — Empty() says so — and the join with an empty box is the receiver itself; its finite coordinates must not leak into the result)"
+			} else if bp.bEmpty {
 				extra = " (the operand is the empty box NewBounds(), i.e. Bounds() of a vertex-less member: joining with it must leave the receiver unchanged)"
 			}
 			c.Bad(rule, name, pos, "ordering b=%s b2=%s: receiver becomes %s, lattice join is %s%s", bp.a, bp.b, showVal(recv), want, extra)
